@@ -221,6 +221,7 @@ namespace Givaro {
                 free((char*)curr);
                 curr = tmp;
             }
+            BlocFreeList::TabFree[i] = 0; // the list is gone: a later allocate must not pop a freed bloc
         }
     }
 
